@@ -17,6 +17,7 @@ import contracts.c02 as c02
 
 ASSUMPTIONS = c02.ASSUMPTIONS + [
     "symmetric (Loewdin) orthonormalisation as a power series: (1+x)^(-1/2) (1+x) (1+x)^(-1/2) = 1 coefficient-wise, Gram-Schmidt against lower classes (lemmas/loewdin.md) - the orthonormality statement of C04 follows from the proved formulas by this lemma (paper proof), not by the solver",
+    "Taylor expansions: sympy.diff / subs / nsimplify on c (1+x)^a with an EXACT exponent a (sympy Rational, int) are mathematical; machine arithmetic treated as mathematical only for the integral float exponent -1.0 of expand_norm_factor (coefficients (-1)^k compared natively up to k = 40); any other float exponent is outside the model (UNDECIDED) - the float -0.5 formerly used by expand_S_taylor lost the exact coefficients beyond 8th order (defect 31b9bd8, found by the thorough tier of expand_S_taylor.binomial_series)",
     "gen_term_orders returns a duplicate free enumeration of the compositions (assumed contract; bounded check gen_term_orders.compositions)",
     "adcgen.func:evaluate_deltas preserves the value (C09)",
     "sympy diff on c(1+x)^a gives c a (1+x)^(a-1); subs(x, 0) gives c; nsimplify(rational=True) keeps the value",
@@ -792,8 +793,20 @@ def var_arith(ip, opn, a, b):
 
 
 def opx_arith(ip, opn, a, b):
-    if opn == "Pow" and isinstance(a, Struct) and isinstance(b, (int, float)):
-        return Struct("Taylor", c=z3.RealVal(1), a=z3.RealVal(repr(b)))
+    if opn == "Pow" and isinstance(a, Struct) and a.cls == "OnePlusX":
+        if isinstance(b, int) and not isinstance(b, bool):
+            return Struct("Taylor", c=z3.RealVal(1), a=z3.RealVal(b))
+        if isinstance(b, Struct) and b.cls == "Expr":       # sympy Rational / exact number
+            return Struct("Taylor", c=z3.RealVal(1), a=as_expr(b).f["val"])
+        if isinstance(b, float) and b == int(b):
+            # integral float exponent (expand_norm_factor: -1.0): treated as the exact integer -
+            # ASSUMPTION machine arithmetic = mathematical; the coefficients (-1)^k were compared
+            # natively up to k = 40 (beyond any order the bounded checks reach)
+            return Struct("Taylor", c=z3.RealVal(1), a=z3.RealVal(int(b)))
+        if isinstance(b, float):
+            # a float exponent makes every coefficient a 15 digit float (nsimplify does not recover
+            # the exact value beyond 8th order - defect 31b9bd8): not modelled as exact arithmetic
+            raise Unsupported("float exponent in the Taylor expansion: machine arithmetic is not modelled")
     raise Unsupported("arithmetic on 1 + x")
 
 
